@@ -106,6 +106,35 @@ pub enum AigWriter {
     BinaryOrdered,
 }
 
+thread_local! {
+    static WRITE_PAD: std::cell::Cell<usize> = const { std::cell::Cell::new(0) };
+}
+
+/// While `f` runs, every writer wrapper of the harness first puts `pad` filler bytes into its
+/// `DeferredWriter` (and removes them from what it returns): the document's bytes then sit at a
+/// chosen distance from the end of the writer's 16 KiB buffer.
+pub fn with_write_pad<R>(pad: usize, f: impl FnOnce() -> R) -> R {
+    let old = WRITE_PAD.with(|p| p.replace(pad));
+    let r = f();
+    WRITE_PAD.with(|p| p.set(old));
+    r
+}
+
+pub fn write_pad(w: &mut DeferredWriter) {
+    let pad = WRITE_PAD.with(|p| p.get());
+    if pad > 0 {
+        w.write_all_defer_err(&vec![b'#'; pad]);
+    }
+}
+
+pub fn strip_pad(mut out: Vec<u8>) -> Vec<u8> {
+    let pad = WRITE_PAD.with(|p| p.get());
+    if pad > 0 && out.len() >= pad && out[..pad].iter().all(|&b| b == b'#') {
+        out.drain(..pad);
+    }
+    out
+}
+
 /// Writes an AIGER document with one of the crate's three whole-file writers.
 pub fn write_aiger_with_crate(a: &AigOwned, lit: u8, which: AigWriter) -> Vec<u8> {
     let mut out = Vec::new();
@@ -115,18 +144,21 @@ pub fn write_aiger_with_crate(a: &AigOwned, lit: u8, which: AigWriter) -> Vec<u8
                 match which {
                     AigWriter::AsciiAig => {
                         let mut w = DeferredWriter::from_write(&mut out);
+                        write_pad(&mut w);
                         let aig = to_aig::<$t>(a);
                         flussab_aiger::ascii::Writer::<$t>::new(&mut w).write_aig(&aig);
                         let _ = std::io::Write::flush(&mut w);
                     }
                     AigWriter::AsciiOrdered => {
                         let mut w = DeferredWriter::from_write(&mut out);
+                        write_pad(&mut w);
                         let aig = to_ordered::<$t>(a);
                         flussab_aiger::ascii::Writer::<$t>::new(&mut w).write_ordered_aig(&aig);
                         let _ = std::io::Write::flush(&mut w);
                     }
                     AigWriter::BinaryOrdered => {
-                        let w = DeferredWriter::from_write(&mut out);
+                        let mut w = DeferredWriter::from_write(&mut out);
+                        write_pad(&mut w);
                         let aig = to_ordered::<$t>(a);
                         let mut bw = flussab_aiger::binary::Writer::<$t>::new(w);
                         bw.write_ordered_aig(&aig);
@@ -143,7 +175,7 @@ pub fn write_aiger_with_crate(a: &AigOwned, lit: u8, which: AigWriter) -> Vec<u8
             _ => body!(usize),
         }
     }
-    out
+    strip_pad(out)
 }
 
 /// Renders a document with the crate's own writer for its format. `None` when a constructor
@@ -161,12 +193,13 @@ pub fn write_with_crate(doc: &Doc, spec: &Spec) -> Option<Vec<u8>> {
             let mut out = Vec::new();
             {
                 let mut w = DeferredWriter::from_write(&mut out);
+                write_pad(&mut w);
                 for l in lines {
                     l.write_with_crate(&mut w, true).ok()?;
                 }
                 let _ = std::io::Write::flush(&mut w);
             }
-            Some(out)
+            Some(strip_pad(out))
         }
     }
 }
